@@ -1,6 +1,9 @@
 package main
 
 import (
+	"go/ast"
+	"go/parser"
+	"go/token"
 	"os/exec"
 	"encoding/json"
 	"flag"
@@ -10,6 +13,7 @@ import (
 	"path/filepath"
 	"regexp"
 	"sort"
+	"strconv"
 	"strings"
 	"time"
 
@@ -44,6 +48,8 @@ type World struct {
 	prog    *ssa.Program
 	pkgs    map[string]*ssa.Package // by repo-relative dir
 	overlay map[string]string       // virtual path -> real path
+	dropped map[string]string       // "<pkgdir>:<function>" -> why the harness function could not be stated on this tree
+	pruned  map[string][]byte       // virtual path -> harness file content with the dropped functions removed
 }
 
 func buildOverlay(repo, hdir string) (map[string][]byte, map[string]string) {
@@ -73,40 +79,141 @@ func buildOverlay(repo, hdir string) (map[string][]byte, map[string]string) {
 
 func loadWorld(repo, hdir string) *World {
 	ov, real := buildOverlay(repo, hdir)
-	cfg := &packages.Config{
-		Mode:    packages.LoadAllSyntax,
-		Dir:     repo,
-		Overlay: ov,
-		Env:     append(os.Environ(), "GOFLAGS=-mod=mod", "GOPROXY=off", "GOSUMDB=off", "GOTOOLCHAIN=local"),
-	}
-	pats := []string{"./cvsserr", "./v2/metric", "./v3/metric", "./v3/version", "./v3/report/names", "./v3/report", "./internal/zzvrt"}
-	if fs, _ := filepath.Glob(filepath.Join(hdir, "xv", "*.go")); len(fs) > 0 {
-		pats = append(pats, "./internal/zzxv")
-	}
-	pkgs, err := packages.Load(cfg, pats...)
-	if err != nil {
-		fatal("packages.Load: %v", err)
-	}
-	bad := false
-	packages.Visit(pkgs, nil, func(p *packages.Package) {
-		for _, e := range p.Errors {
-			if strings.HasPrefix(p.PkgPath, modulePath) {
+	dropped := map[string]string{} // pkgdir:function -> reason
+	pruned := map[string][]byte{}
+	var pkgs []*packages.Package
+	for round := 0; ; round++ {
+		cfg := &packages.Config{
+			Mode:    packages.LoadAllSyntax,
+			Dir:     repo,
+			Overlay: ov,
+			Env:     append(os.Environ(), "GOFLAGS=-mod=mod", "GOPROXY=off", "GOSUMDB=off", "GOTOOLCHAIN=local"),
+		}
+		pats := []string{"./cvsserr", "./v2/metric", "./v3/metric", "./v3/version", "./v3/report/names", "./v3/report", "./internal/zzvrt"}
+		if fs, _ := filepath.Glob(filepath.Join(hdir, "xv", "*.go")); len(fs) > 0 {
+			pats = append(pats, "./internal/zzxv")
+		}
+		var err error
+		pkgs, err = packages.Load(cfg, pats...)
+		if err != nil {
+			fatal("packages.Load: %v", err)
+		}
+		bad := false
+		// harness functions that do not type-check against this tree (they are stated over unexported
+		// functions or fields that no longer exist in that form) are removed, function by function
+		type hit struct {
+			file string
+			line int
+			msg  string
+		}
+		var hits []hit
+		packages.Visit(pkgs, nil, func(p *packages.Package) {
+			for _, e := range p.Errors {
+				if !strings.HasPrefix(p.PkgPath, modulePath) {
+					continue
+				}
+				parts := strings.Split(e.Pos, ":")
+				if len(parts) >= 2 && strings.Contains(filepath.Base(parts[0]), "zz_verif_") {
+					if _, isOv := ov[parts[0]]; isOv {
+						ln, _ := strconv.Atoi(parts[1])
+						hits = append(hits, hit{parts[0], ln, e.Msg})
+						continue
+					}
+				}
 				fmt.Fprintf(os.Stderr, "load error: %s: %v\n", p.PkgPath, e)
 				bad = true
 			}
+		})
+		if bad {
+			fatal("package load errors (the repository does not type-check)")
 		}
-	})
-	if bad {
-		fatal("package load errors (repository or harness does not type-check)")
+		if len(hits) == 0 {
+			break
+		}
+		if round > 12 {
+			fatal("harness files do not type-check against this tree: %v", hits[0])
+		}
+		progress := false
+		byFile := map[string][]hit{}
+		for _, h := range hits {
+			byFile[h.file] = append(byFile[h.file], h)
+		}
+		for file, hs := range byFile {
+			src := ov[file]
+			fset := token.NewFileSet()
+			af, perr := parser.ParseFile(fset, file, src, parser.ParseComments)
+			if perr != nil {
+				fatal("harness file %s does not parse: %v", file, perr)
+			}
+			type span struct{ lo, hi int }
+			var cuts []span
+			seen := map[string]bool{}
+			for _, h := range hs {
+				for _, d := range af.Decls {
+					fd, ok := d.(*ast.FuncDecl)
+					if !ok {
+						continue
+					}
+					lo, hi := fset.Position(fd.Pos()), fset.Position(fd.End())
+					if h.line < lo.Line || h.line > hi.Line || seen[fd.Name.Name] {
+						continue
+					}
+					seen[fd.Name.Name] = true
+					start := lo.Offset
+					if fd.Doc != nil {
+						start = fset.Position(fd.Doc.Pos()).Offset
+					}
+					cuts = append(cuts, span{start, hi.Offset})
+					key := filepath.Dir(strings.TrimPrefix(file, repo+"/")) + ":" + fd.Name.Name
+					dropped[key] = fmt.Sprintf("%s (harness line %d)", h.msg, h.line)
+					fmt.Fprintf(os.Stderr, "NOTE harness function %s does not type-check against this tree and is left out: %s\n", key, h.msg)
+					progress = true
+				}
+			}
+			sort.Slice(cuts, func(i, j int) bool { return cuts[i].lo > cuts[j].lo })
+			out := append([]byte(nil), src...)
+			for _, c := range cuts {
+				out = append(out[:c.lo:c.lo], out[c.hi:]...)
+			}
+			// imports that are no longer used would be errors of their own: blank-use every import
+			out = append(out, []byte(blankUses(af))...)
+			ov[file] = out
+			pruned[file] = out
+		}
+		if !progress {
+			fatal("harness files do not type-check against this tree (error outside any function): %s: %s", hits[0].file, hits[0].msg)
+		}
 	}
 	prog, spkgs := ssautil.AllPackages(pkgs, ssa.InstantiateGenerics)
 	prog.Build()
-	w := &World{repo: repo, hdir: hdir, prog: prog, pkgs: map[string]*ssa.Package{}, overlay: real}
+	w := &World{repo: repo, hdir: hdir, prog: prog, pkgs: map[string]*ssa.Package{}, overlay: real, dropped: dropped, pruned: pruned}
 	for i, p := range pkgs {
 		rel := strings.TrimPrefix(strings.TrimPrefix(p.PkgPath, modulePath), "/")
 		w.pkgs[rel] = spkgs[i]
 	}
 	return w
+}
+
+// blankUses keeps every import of a pruned harness file in use.
+func blankUses(af *ast.File) string {
+	var sb strings.Builder
+	sb.WriteString("\n")
+	for _, im := range af.Imports {
+		path, _ := strconv.Unquote(im.Path.Value)
+		name := filepath.Base(path)
+		if im.Name != nil {
+			name = im.Name.Name
+		}
+		if name == "_" || name == "." {
+			continue
+		}
+		sym := map[string]string{"strconv": "Itoa", "strings": "Join", "math": "Abs", "fmt": "Sprint", "errors": "New", "zzvrt": "Assert", "vrt": "Assert", "io": "EOF", "bytes": "NewBuffer", "metric": "NewBase", "language": "Und", "names": "BaseMetrics", "cvsserr": "ErrNullPointer", "big": "NewRat", "report": "NewBase", "template": "New", "sort": "Strings"}[name]
+		if sym == "" {
+			continue
+		}
+		fmt.Fprintf(&sb, "var _ = %s.%s\n", name, sym)
+	}
+	return sb.String()
 }
 
 func fatal(f string, a ...interface{}) {
@@ -129,6 +236,7 @@ type HarnessSpec struct {
 	Split     map[string][2]int64 `json:"split,omitempty"` // labels enumerated concretely (cube splitting): label -> [lo,hi]
 	Procs     int    `json:"procs,omitempty"` // worker processes for cubes
 	PureFP    bool   `json:"purefp,omitempty"` // no lifting of floats: every float operation goes to the solver (FloatingPoint theory)
+	Optional  bool   `json:"optional,omitempty"` // a lemma over unexported functions / fields: when it cannot be stated on the tree (it no longer type-checks) the property is decided by the remaining harnesses
 	Histories bool   `json:"histories,omitempty"` // run twice (vrt.HistoryStep() false / true) and require equal vrt.Observe values
 	index     int    // position in the registry (addresses the entry for cube workers)
 	// known-finding handling: assertions whose message starts with "KF:" are expected-sat
@@ -236,6 +344,10 @@ func (w *World) runHarnessOnce(spec HarnessSpec, ro runOpts, fixed map[string]in
 	}()
 	fn := w.findFunc(spec.Pkg, spec.Name)
 	if fn == nil {
+		if why, ok := w.dropped[spec.Pkg+":"+spec.Name]; ok {
+			rep.Error = "not statable on this tree: " + why
+			return
+		}
 		rep.Error = "harness function not found: " + spec.Pkg + "." + spec.Name
 		return
 	}
@@ -305,7 +417,11 @@ func (w *World) runHarnessOnce(spec HarnessSpec, ro runOpts, fixed map[string]in
 				o.Kind = "known-finding"
 			}
 			b.Obls = append(b.Obls, o)
-			// vacuity twin: the assertion must be reachable
+			// vacuity twin: the assertion must be reachable (conditional assertions "IF: ..." speak about
+			// behaviour the tree may not have at all, e.g. a decoder that accepts a second vector)
+			if strings.HasPrefix(a.Msg, "IF:") {
+				continue
+			}
 			b.Obls = append(b.Obls, &Obligation{Name: fmt.Sprintf("reach(%s)#%d", a.Msg, i), Kind: "reach", Formula: a.G, Expect: VSat})
 		case "reach":
 			b.Obls = append(b.Obls, &Obligation{Name: fmt.Sprintf("%s#%d", a.Msg, i), Kind: "reach", Formula: a.G, Expect: VSat})
@@ -616,7 +732,19 @@ func decodeModel(ex *Exec, m map[string]string) map[string]interface{} {
 						name = k
 					}
 				}
+				if s, ok := tagGlobalNames[name]; ok && name != "English" && name != "Japanese" && name != "Und" {
+					name = "tag:" + s
+				}
+				if name == "Other" {
+					// some tag that is none of the constants the code mentions: different values replay as different tags
+					// (overridden by the "<label>.str" entry when the code looked at the tag's string form)
+					name = "tag:" + tagOtherStrings[int(uint64(v)%uint64(len(tagOtherStrings)))]
+				}
 				out[n.Label] = name
+			}
+		case "langaux":
+			if v, ok := smtValBV(raw); ok && v >= 0 && int(v) < len(tagOtherStrings) {
+				out[n.Label] = "tag:" + tagOtherStrings[v]
 			}
 		case "bool":
 			out[n.Label] = strings.TrimSpace(raw) == "true"
